@@ -158,6 +158,11 @@ class Engine:
 
     # ------------------------------------------------------------------ truthiness / comparison
     def truth(self, st, v):
+        h = self.hooks.get("truth")
+        if h:
+            r = h(self, st, v)
+            if r is not None:
+                return r
         if isinstance(v, VBool):
             return v.t
         if isinstance(v, VNone):
@@ -494,6 +499,11 @@ class Engine:
     def e_List(self, node, st, fid):
         def mk(s, vs):
             from . import builtins as B
+            h = self.hooks.get("list_display")
+            if h:
+                r = h(self, s, vs)
+                if r is not None:
+                    return r
             return [B.list_from_values(self, s, vs)]
         return self.bind(self.eval_many(node.elts, st, fid), mk)
 
@@ -540,6 +550,11 @@ class Engine:
 
     def e_UnaryOp(self, node, st, fid):
         def after(s, v):
+            h = self.hooks.get("unary")
+            if h:
+                r = h(self, s, node.op, v)
+                if r is not None:
+                    return r
             if isinstance(node.op, ast.Not):
                 t = self.truth(s, v)
                 return [("ok", s, VBool(not t if isinstance(t, bool) else z3.Not(t)))]
@@ -644,6 +659,11 @@ class Engine:
 
     def compare(self, st, op, a, b):
         from . import builtins as B
+        h = self.hooks.get("compare")
+        if h:
+            r = h(self, st, op, a, b)
+            if r is not None:
+                return r
         mk = lambda c: [("ok", st, VBool(c))]  # noqa
         if isinstance(op, (ast.Eq, ast.NotEq)):
             c = self.eq(st, a, b)
@@ -950,6 +970,9 @@ class Engine:
                 h = self.hooks.get("call_abstract")
                 if h:
                     return h(self, st, f, pos, kw)
+            if f.kind == "npfunc":
+                from . import npalg
+                return npalg.call_npfunc(self, st, f, pos, kw)
             if f.kind == "np_empty":
                 # numpy.empty(n): an array of n unspecified reals, modelled as a list of reals
                 n = unwrap(pos[0], "int")
@@ -966,7 +989,12 @@ class Engine:
             return self.call_method(st, f, "__call__", pos, kw)
         if isinstance(f, VOpaque):
             return [("ok", st, VOpaque(f.what + "()"))]
-        raise Unsupported(f"call of {f!r}")
+        h = self.hooks.get("call_object")
+        if h:
+            r = h(self, st, f, pos, kw)
+            if r is not None:
+                return r
+        raise Unsupported(f"call of {f!r}"[:300])
 
     def construct(self, st, clsname, pos, kw):
         from . import builtins as B
